@@ -259,6 +259,8 @@ FAULTS = {
     "bad-send-argument": (["send Ev(p=1/0)"], "slide"),
     "bad-action-argument": (["start ActAAction(p=1/0)"], "slide"),
     "bad-flow-argument": (["await helper (1/0)"], "slide"),
+    "too-many-flow-arguments": (["start helper 1 2 3"], "slide"),
+    "too-many-flow-arguments-await": (["await helper 1 2 3"], "slide"),
     "bad-if-condition": (["if 1/0", "  send Never1()"], "slide"),
     "invalid-regex-pattern": (['match {EV}(p=regex("("))'], "match"),
     "comparison-type-error": (["match {EV}(p=less_than(3))"], "match"),
